@@ -61,7 +61,7 @@ CHECKS = {
  "C20": ("property-based testing (rapid) with probe block/inline parsers, paragraph/AST transformers and node renderers of generated priorities, behaviours and registration channels/orders; oracle: priority-sorted reference dispatch (log and output) and equality with the canonical sorted registration; trees with kinds nobody renders / created after renderer initialisation",
          "Generated registrations against a reference dispatcher written from the documented priority rules; a self-test pins the assumptions about built-in priorities.",
          "Trusted: the reference dispatcher in checks/c20; built-in priorities as documented."),
- "C02": ("property-based testing (rapid): constructed-document model with reference renderer and spelling-choosing serialiser; exhaustive enumeration of the 652 spec examples x licensed rewrites against spec.json; delimiter soup against a reference implementation of the spec's delimiter-run algorithm (validated on 103 spec examples at start-up), on one line and over several lines inside containers spelled with every equivalent prefix; generated HTML-block start-line look-alikes against a reference reading of the seven start conditions; generated inline-link tails against a reference reading of destination / title syntax; generated single lines against a reference classifier of block starts and paragraph interruption",
+ "C02": ("property-based testing (rapid): constructed-document model with reference renderer and spelling-choosing serialiser; exhaustive enumeration of the 652 spec examples x licensed rewrites against spec.json; delimiter soup against a reference implementation of the spec's delimiter-run algorithm (validated on 103 spec examples at start-up), on one line and over several lines inside containers spelled with every equivalent prefix; generated HTML-block start-line look-alikes against a reference reading of the seven start conditions; generated inline-link tails against a reference reading of destination / title syntax; generated single lines against a reference classifier of block starts and paragraph interruption; generated definition look-alikes against a reference reading of link reference definitions",
          "Three independent oracles, none of which asks goldmark: spec.json's expected HTML for rewritten examples (exhaustive), HTML known by construction for generated document models under any choice of equivalent spellings, and a reference emphasis algorithm for delimiter soup. Comparison modulo whitespace next to block tags (the slack of the spec's own comparison). The serialiser also emits near-miss spellings with an equally fixed meaning (continuation lines indented >= 5 columns that look like block starts, title-like lines followed by text after a definition, a literal backslash before a two-space hard break, labels spread over two lines; link look-alikes - an unescaped '<' or a glued title behind a <...> destination, an unbalanced '(', a space before '(', text after the title; definition look-alikes; '<?>'; '</ div>'; character references one digit over the limits). Constructs and spellings added from independent audits: empty list items, items that begin with indented code, quotes ending in a marker-only line, multi-line definition titles with indented continuation lines, line endings in code spans, autolinks and code spans in image descriptions, inline raw HTML over several lines, labels of 999 one-/two-/three-byte characters, HTML block start condition 7 with tabs, structural indentation spelled as spaces followed by a tab.",
          "Trusted: the document model, reference renderer and serialiser (checks/c02/model,gen,ser), the reference emphasis algorithm (self-tested against spec.json), spec.json itself. The serialiser only emits spellings whose meaning is fixed by construction."),
  "C07": ("generated concurrent workloads (rapid) on fresh shared instances under the Go race detector (-race, GORACE=halt_on_error) with GOMAXPROCS variation and injected runtime.Gosched yields; per-goroutine output equality with the sequential output; fresh-process first-use cases by re-executing the test binary",
